@@ -216,6 +216,10 @@ def random_case(rng):
         opts["oks_scale"] = float(rng.choice([100, 400, 2500]))
     if rng.random() < 0.15:
         opts["match_threshold"] = 0.3
+    if len(frames) >= 2 and rng.random() < 0.3:
+        # the frames live in two videos embedded in one package file (same filename, different HDF5 dataset) and share
+        # frame numbers: pairing must keep them apart (seed C16_r5)
+        opts["two_videos"] = True
     return new_case(frames, N, opts, tag=mode + ("-ties" if ties else ""))
 
 
